@@ -10,7 +10,7 @@
    unit twist, rotation block and translation block V(theta)); uniqueness of the one-parameter subgroup with a
    given generator and the series itself are not formalised.  Floating-point conditioning is measured by the oracle. *)
 From Coq Require Import Reals ZArith Lra.
-From SM Require Import Base.Ops Base.Lin Base.RInst Base.RLin Model.C03_ExpLog Model.C03_Lemmas.
+From SM Require Import Base.Ops Base.Lin Base.RInst Base.RLin Model.C03_ExpLog Model.C03_Lemmas Model.C05_Trig Model.C03_Log.
 From SMgen Require Import Consts_C03 Traces_C03.
 Open Scope R_scope.
 
@@ -99,7 +99,15 @@ Print Assumptions C03_exp_theta_form.
 Example C03_exp_theta_form_nonvacuous : normsq3 Rops (1, 0, 0) = 1 /\ thv Rops (k_zero C03_thr) <= 1.
 Proof. unfold thv, C03_thr. autounfold with smlin; sm_simpl. cbn. split; [ring | lra]. Qed.
 
-(* ---- (2) exp(log R) = R on the general (acos) branch, and the rotation magnitude of the log is in (0, pi] ---- *)
+(* ---- (2) exp(log R) = R on BOTH non-identity branches of the logarithm of fix 84bd1d7 (angle atan2(|vex A|, c),
+        half-turn axis from the symmetric part), and the rotation magnitude of the log is in (0, pi].
+        The only guard left is the exponential's own domain |w| > k_unit eps (finding 7, not fixed). ---- *)
+Theorem C03_thr_ok2 : thr_ok2 C03_thr /\ thr_ok_2d C03_thr.
+Proof.
+  unfold thr_ok2, thr_ok_2d. split; [split; [exact C03_thr_ok|] | split; [exact C03_thr_ok|]]; unfold C03_thr; cbn; try split; lra.
+Qed.
+Print Assumptions C03_thr_ok2.
+
 Theorem C03_exp_log_general : forall Rm : M33 R,
   SO3 Rm -> trlog_so3_branch Rops C03_thr Rm = BrGen -> thv Rops (k_unit C03_thr) < log_theta Rops Rm ->
   trexp_so3 Rops C03_thr (trlog_so3_tw Rops C03_thr Rm) = Ok Rm /\
@@ -107,7 +115,27 @@ Theorem C03_exp_log_general : forall Rm : M33 R,
 Proof. intros. apply explog_so3_general; auto using C03_thr_ok. Qed.
 Print Assumptions C03_exp_log_general.
 
-(* non-vacuity: the quarter turn about z is in SO(3), takes the general branch, and its angle pi/2 exceeds 100 eps *)
+(* half-turn branch: exact for EVERY rotation inside the band |tr + 1| < k_half eps (no band error any more) *)
+Theorem C03_exp_log_halfturn : forall Rm : M33 R,
+  SO3 Rm -> trlog_so3_branch Rops C03_thr Rm = BrHalf ->
+  trexp_so3 Rops C03_thr (trlog_so3_tw Rops C03_thr Rm) = Ok Rm /\
+  norm3 Rops (trlog_so3_tw Rops C03_thr Rm) = log_theta Rops Rm /\ 0 < log_theta Rops Rm <= PI.
+Proof. intros. apply explog_so3_halfturn; auto. exact (proj1 C03_thr_ok2). Qed.
+Print Assumptions C03_exp_log_halfturn.
+
+(* the assembled statement over the whole group outside the identity band *)
+Theorem C03_exp_log_SO3 : forall Rm : M33 R,
+  SO3 Rm -> trlog_so3_branch Rops C03_thr Rm <> BrEye -> thv Rops (k_unit C03_thr) < log_theta Rops Rm ->
+  trexp_so3 Rops C03_thr (trlog_so3_tw Rops C03_thr Rm) = Ok Rm /\
+  norm3 Rops (trlog_so3_tw Rops C03_thr Rm) = log_theta Rops Rm /\ 0 < log_theta Rops Rm <= PI.
+Proof. intros. apply explog_SO3; auto. exact (proj1 C03_thr_ok2). Qed.
+Print Assumptions C03_exp_log_SO3.
+
+Lemma sqrt_ge_1 x : 1 <= x -> 1 <= sqrt x.
+Proof. intros. rewrite <- sqrt_1. apply sqrt_le_1_alt. assumption. Qed.
+
+(* non-vacuity: the quarter turn about z takes the general branch with angle pi/2 > 100 eps;
+   the half turn about z takes the half-turn branch *)
 Example C03_exp_log_general_nonvacuous :
   let Rz := ((0,-1,0),(1,0,0),(0,0,1)) : M33 R in
   SO3 Rz /\ trlog_so3_branch Rops C03_thr Rz = BrGen /\ thv Rops (k_unit C03_thr) < log_theta Rops Rz.
@@ -121,12 +149,26 @@ Proof.
     replace (Rltb 2 _) with false by (symmetry; apply Rltb_false; lra).
     replace (0 + 0 + 1 + 1) with 2 by ring. rewrite Rabs_pos_eq by lra.
     replace (Rltb 2 _) with false by (symmetry; apply Rltb_false; lra). reflexivity.
-  - unfold log_theta, thv, C03_thr. autounfold with smlin. sm_simpl. cbn [k_unit].
-    replace ((0 + 0 + 1 - 1) / (1 + 1)) with 0 by field. rewrite acos_0. pose proof PI_RGT_0.
-    assert (3 < PI) by (pose proof PI_4; pose proof (PI2_3_2); unfold PI2 in *; lra). lra.
+  - unfold log_theta. rewrite log_st_eq, log_c_eq. cbn [atan2_ Rops].
+    replace ((0 + 0 + 1 - 1) / 2) with 0 by field.
+    replace ((0 - 0) / 2 * ((0 - 0) / 2) + (0 - 0) / 2 * ((0 - 0) / 2) + (1 - -1) / 2 * ((1 - -1) / 2)) with 1 by field.
+    rewrite sqrt_1. unfold atan2. destruct (Rlt_dec 0 0); [lra|]. destruct (Rlt_dec 0 1); [|lra].
+    unfold thv, C03_thr. cbn. assert (3 < PI) by (pose proof PI_4; pose proof (PI2_3_2); unfold PI2 in *; lra). lra.
+Qed.
+Example C03_exp_log_halfturn_nonvacuous :
+  let Rz := ((-1,0,0),(0,-1,0),(0,0,1)) : M33 R in
+  SO3 Rz /\ trlog_so3_branch Rops C03_thr Rz = BrHalf.
+Proof.
+  cbv zeta. split.
+  - unfold SO3. repeat split; ring.
+  - unfold trlog_so3_branch, iseye33, fro33. unfold thv, C03_thr. autounfold with smlin. sm_simpl. cbn [k_eye k_half].
+    replace (Rltb (sqrt _) _) with false.
+    2:{ symmetry. apply Rltb_false. match goal with |- ~ sqrt ?x < _ => assert (1 <= sqrt x) by (apply sqrt_ge_1; lra) end. lra. }
+    replace (-1 + -1 + 1 + 1) with 0 by ring. rewrite Rabs_R0.
+    replace (Rltb 0 _) with true by (symmetry; apply Rltb_true; lra). reflexivity.
 Qed.
 
-(* ---- (3) log(exp S) = S for S = theta u, u unit, 0 < theta < pi, on the general branch ---- *)
+(* ---- (3) log(exp S) = S for S = theta u, u unit, 0 < theta < pi, on the general branch (atan2 (sin) (cos) = theta) ---- *)
 Theorem C03_log_exp_general : forall (u : V3 R) (th : R),
   normsq3 Rops u = 1 -> 0 < th < PI ->
   trlog_so3_branch Rops C03_thr (rodrigues_th Rops u th) = BrGen ->
@@ -154,6 +196,36 @@ Proof.
   split; [apply rodrigues1_th_add; assumption|]. split; [apply rodrigues1_th_rot2 | apply Vmat2_add; assumption].
 Qed.
 Print Assumptions C03_trexp2_so2_subgroup.
+
+(* ---- 2D round trips with the closed-form logarithm of fix c4462a7 (theta = atan2(T10, T00), v = [[a,b],[-b,a]] t).
+        Over R the model's a = b / tan b is unspecified exactly at theta = +-PI (tan(PI/2) = 1/0), hence |theta| < PI. ---- *)
+Theorem C03_exp2_log2_SE2 : forall Tm : M33 R,
+  SE2 Tm -> iseye33 Rops C03_thr Tm = false ->
+  let th := (let '((t00,_,_),(t10,_,_),_) := Tm in atan2 t10 t00) in
+  thv Rops (k_unit C03_thr) < Rabs th -> Rabs th < PI ->
+  trexp2_se2 Rops C03_thr (trlog2_se2_tw Rops C03_thr Tm) = Ok Tm.
+Proof. intros Tm H1 H2. apply explog2_se2; auto. exact (proj2 C03_thr_ok2). Qed.
+Print Assumptions C03_exp2_log2_SE2.
+
+Theorem C03_log2_exp2_se2 : forall (v0 v1 th : R) (Tm : M33 R),
+  thv Rops (k_unit C03_thr) < Rabs th -> Rabs th < PI ->
+  trexp2_se2 Rops C03_thr (v0, v1, th) = Ok Tm -> iseye33 Rops C03_thr Tm = false ->
+  trlog2_se2_tw Rops C03_thr Tm = (v0, v1, th).
+Proof. intros. eapply logexp2_se2; eauto. exact (proj2 C03_thr_ok2). Qed.
+Print Assumptions C03_log2_exp2_se2.
+
+Theorem C03_exp2_log2_SO2 : forall Rm : M22 R,
+  SO2 Rm -> thv Rops (k_unit C03_thr) < Rabs (trlog2_so2 Rops Rm) ->
+  trexp2_so2 Rops C03_thr (trlog2_so2 Rops Rm) = Ok Rm.
+Proof. intros. apply explog2_so2; auto using C03_thr_ok. Qed.
+Print Assumptions C03_exp2_log2_SO2.
+Example C03_exp2_log2_nonvacuous : SO2 (((0,-1),(1,0)) : M22 R) /\ thv Rops (k_unit C03_thr) < Rabs (trlog2_so2 Rops ((0,-1),(1,0))) /\ Rabs (trlog2_so2 Rops ((0,-1),(1,0))) < PI.
+Proof.
+  assert (E : trlog2_so2 Rops ((0,-1),(1,0)) = PI/2).
+  { unfold trlog2_so2, trlog2_theta. cbn [atan2_ Rops]. unfold atan2. destruct (Rlt_dec 0 0); [lra|]. destruct (Rlt_dec 0 1); [reflexivity|lra]. }
+  rewrite E. pose proof PI_RGT_0. assert (3 < PI) by (pose proof PI_4; pose proof (PI2_3_2); unfold PI2 in *; lra).
+  rewrite Rabs_pos_eq by lra. split; [unfold SO2; repeat split; ring|]. unfold thv, C03_thr. cbn. lra.
+Qed.
 
 (* ---- bridges: concolic traces of the REAL code (regenerated each run) equal the hand model, for all inputs ---- *)
 Ltac gen_simpl := autounfold with smgen c03 smlin; sm_simpl.
